@@ -86,18 +86,27 @@ def r01_1(ctx):
             [v["name"] for v in dt["variants"]] if dt else None, DT))
         return
     mo = modes(ctx)
+    # per block: the directive types it can be reached for (one exploration per type, with the edges of every test of the type that
+    # exclude it cut — the dispatch itself, and earlier tests such as "is this an include / after?" of the dependency lookup)
+    import modes as M_
+    me = M_.Modes(lib, mode_adts=(ADT["DirectiveType"],), all_modes=frozenset(DT)).mode_edges(ed)
+    if not me:
+        ctx.anchor_missing("dispatch on DirectiveType in execute_directive")
+        return
+    vis = {v: C.explore(ed, cut={eid for eid, vs in me.items() if v not in vs})[0] for v in DT}
+    mm = mo.mode_edges(ed)
+    non_clean = C.explore(ed, cut={eid for eid, vs in mm.items() if vs == {"Clean"}})[0]
+    tested = set()
+    for eid in me:
+        tested |= C.region(ed, {eid})
     for v in DT:
-        # the dispatch outside Clean (the Clean arm has its own, smaller dispatch: C07)
-        e = {eid for eid in enum_edges(ed, lib, ADT["DirectiveType"], lambda vs, v=v: v in vs)
-             if mo.local_modes(ed, eid[0]) - {"Clean"}}
-        if not e:
+        # blocks that are reached for this type and only for types with the same documented behaviour, outside Clean (the Clean arm has
+        # its own, smaller dispatch: C07), behind at least one test of the type
+        klass = {w for w in DT if expected_arms()[w] == expected_arms()[v]}
+        reg = {bb for bb in vis[v] if bb in non_clean and bb in tested and {w for w in DT if bb in vis[w]} <= klass}
+        if not reg:
             ctx.anchor_missing("arm for DirectiveType::%s in execute_directive" % v)
             continue
-        # blocks reachable in this variant and in no variant of a different expected class
-        targets = {ed.raw_succs(eb)[ei][0] for (eb, ei) in e}
-        others = {eid for eid in enum_edges(ed, lib, ADT["DirectiveType"], lambda vs, v=v: v not in vs)
-                  if ed.raw_succs(eid[0])[eid[1]][0] not in targets and mo.local_modes(ed, eid[0]) - {"Clean"}}
-        reg = C.region(ed, e) - C.region(ed, others) if others else C.region(ed, e)
         calls = _effect_calls(ed, reg)
         sig = {C.callee_name(t) for bb, t in calls if significant(C.callee_name(t))}
         want, yields = expected_arms()[v]
@@ -344,8 +353,10 @@ def r11_4(ctx):
 @rule("C11", "R11.5", floor=1)
 def r11_5(ctx):
     mo = modes(ctx)
-    tgt = ROLE["execute_in_collect_deps_mode"]
+    tgt = ROLE["get_txtpp_file"]
     for (b, bb, t) in C.all_call_sites(ctx.lib, lambda ns, t: tgt in ns):
+        if b.name != ROLE["execute_directive"]:
+            continue        # (the lookup of a dependency, spliced into execute_directive; resolve_inputs' use is input handling)
         m = mo.site_modes(b, bb)
         if "Clean" in m:
             ctx.violation([b.name, "deps-in-clean"], "dependencies are collected in Clean mode (clean would cascade to dependencies)", site=ctx.site(b, bb))
@@ -689,16 +700,23 @@ def r15_1(ctx):
             reg = C.exclusive_region(tf, te) if te else set()
             built = {st["rv"]["agg"]["variant"] for b2, st in aggregates(tf, ADT["DirectiveType"]) if b2 in reg}
             found[k] = sorted(built)
-        for k, v in NAME_TABLE.items():
+        looped = any(tf.in_cycle(bb) for bb, t in tf.calls() if C.callee_name(t).endswith("::eq"))
+        if not any(found.values()) and looped:
+            # `ALL_TYPES.into_iter().find(|t| t.name() == value)`: the name of each variant is compared inside a loop over a table of
+            # variants — which names map to which variant is then the content of two tables, not the shape of this function
+            ctx.unverified("directive names are looked up through a reverse table in a loop", site=ctx.site(tf, 0),
+                           detail="the name -> DirectiveType mapping is not decided structurally for this implementation")
+            found = None
+        for k, v in (NAME_TABLE.items() if found is not None else ()):
             if found.get(k) == [v]:
                 ctx.ok("name %s -> %s" % (k, v), site=ctx.site(tf, 0))
             else:
                 ctx.violation(["name", k], "directive name %s maps to %s, documented %s" % (k, found.get(k), v), site=ctx.site(tf, 0))
-        extra = set(found) - set(NAME_TABLE)
+        extra = (set(found) - set(NAME_TABLE)) if found is not None else set()
         if extra:
             ctx.violation(["extra-names", ",".join(sorted(extra))], "undocumented directive names are recognised: %s" % sorted(extra), site=ctx.site(tf, 0))
         # no other comparison style (starts_with / eq_ignore_case ...)
-        odd = [C.callee_name(t) for bb, t in tf.calls() if not C.callee_name(t).endswith("::eq")]
+        odd = [C.callee_name(t) for bb, t in tf.calls() if not C.callee_name(t).endswith("::eq")] if found is not None else []
         if odd:
             ctx.violation(["name-match-style", ",".join(sorted(set(odd)))], "directive names are matched with %s (exact equality documented)" % sorted(set(odd)),
                           site=ctx.site(tf, 0))
@@ -1029,6 +1047,17 @@ def r15_5(ctx):
                 sorted(set(bad)) or "no origin"), site=ctx.site(al, bb))
 
 
+def _ext_loop(b):
+    """the function peels / inspects extensions inside a loop (a `while` collecting them into a Vec, an iterator over them): a different
+    algorithm from the reviewed straight-line one — the shape rules about the name arithmetic then give no verdict"""
+    return any(C.callee_name(t) in ("std::path::Path::extension", "std::path::PathBuf::set_extension", "std::path::Path::with_extension")
+               and b.in_cycle(bb) for bb, t in b.calls())
+
+
+def _is_ext_const(b, op):
+    return any(l.kind == "const" and (l.data.get("named", "").endswith("TXTPP_EXT") or C.op_const(l.data) == '"txtpp"') for l in C.trace(b, op))
+
+
 @rule("C11", "R11.6", floor=2)
 def r11_6(ctx):
     """the extension constant and the functions that test / strip it"""
@@ -1048,12 +1077,19 @@ def r11_6(ctx):
                         cmps += 1
         if cmps >= 2 and calls_to(it, "std::path::Path::extension"):
             ctx.ok("is_txtpp_file compares the last and the second-to-last extension with TXTPP_EXT", site=ctx.site(it, 0))
+        elif cmps >= 1 and _ext_loop(it):
+            ctx.unverified("is_txtpp_file inspects the extensions in a loop", site=ctx.site(it, 0),
+                           detail="one comparison with TXTPP_EXT inside a loop over peeled extensions: how many extensions are looked at is the "
+                                  "loop bound, a value — not decided structurally")
         else:
             ctx.violation(["is_txtpp_file"], "is_txtpp_file no longer compares both the last and the second-to-last extension with TXTPP_EXT (%d comparisons)" % cmps,
                           site=ctx.site(it, 0))
     rt = body(ctx, "remove_txtpp")
     if rt:
         g = bool_call_edges(rt, lib, ROLE["is_txtpp_file"], True)
+        # .. or the arm itself tests an extension against the constant (`[outer, inner] if inner == TXTPP_EXT`)
+        g |= C.guard_edges(rt, lib, lambda c, v, leaf: c.kind == "bool" and leaf is not None and leaf.kind == "call" and v is True and
+                           (C.callee_name(leaf.data) or "").endswith("::eq") and any(_is_ext_const(rt, a) for a in leaf.data["args"]))
         oks = ok_sites(rt)
         if g and oks and all(C.guarded(rt, o, g) for o in oks):
             ctx.ok("remove_txtpp returns Ok only for a path that is_txtpp_file()", site=ctx.site(rt, oks[0]))
@@ -1363,6 +1399,8 @@ def _component_deltas(prog, b):
         if key in seen:
             continue
         seen.add(key)
+        if len(seen) > 20000:
+            return "BUDGET"
         st2, env2 = step_block(bb, st, env)
         t = b.blocks[bb]["term"]
         known = None
@@ -1387,7 +1425,14 @@ def r11_7(ctx):
     b = body(ctx, "remove_txtpp")
     if not b:
         return
+    if _ext_loop(b):
+        ctx.unverified("remove_txtpp peels the extensions in a loop", site=ctx.site(b, 0),
+                       detail="the number of components removed depends on the loop bound (a value): not decided structurally")
+        return
     res = _component_deltas(ctx.lib, b)
+    if res == "BUDGET":
+        ctx.unverified("component arithmetic of remove_txtpp: exploration budget exceeded", site=ctx.site(b, 0))
+        return
     if not res:
         ctx.anchor_missing("Ok return of remove_txtpp carrying the working copy of the path")
         return
@@ -1468,11 +1513,11 @@ def r10_5(ctx):
     if not tr:
         return
     p_ext = tr.param_index_by_name("ext")
-    sb = calls_to(tr, ROLE["share_base"])
+    sb = resolved_path_sites(tr)
     if not sb:
         ctx.anchor_missing("share_base call in try_resolve")
-    for bb, t in sb:
-        lv = C.trace(tr, t["args"][1])
+    for bb, sb_op in sb:
+        lv = C.trace(tr, sb_op)
         bad = []
         for l in lv:
             if l.kind == "param" and l.data == p_ext:
@@ -2011,6 +2056,11 @@ def r11_10(ctx):
     b = body(ctx, "get_txtpp_file")
     if not b:
         return
+    if _ext_loop(b):
+        ctx.unverified("get_txtpp_file obtains the name's extensions from a loop", site=ctx.site(b, 0),
+                       detail="the extension a candidate is built from is read out of a collection filled by a loop: that it is the name's own "
+                              "last extension is a value-level fact, so the component accounting does not apply")
+        return
     res = _candidate_deltas(ctx.lib, b)
     if not res:
         ctx.unverified("no candidate construction through set_extension / with_extension found in get_txtpp_file", site=ctx.site(b, 0))
@@ -2037,7 +2087,8 @@ def r01_11(ctx):
 
 
 def _cli_field_flow(ctx, fn_suffix, pairs):
-    """in the CLI function `fn_suffix`, config.<dst> is assigned exactly the flag self.<src> (moved, cloned; not negated, not combined)"""
+    """in the CLI front end (spliced into main), Config.<dst> is given exactly the flag <src> of the parsed command line (moved, cloned;
+    not negated, not combined)"""
     binp = ctx.bin
     if binp is None:
         ctx.anchor_missing("binary crate facts")
@@ -2045,36 +2096,40 @@ def _cli_field_flow(ctx, fn_suffix, pairs):
     b = ctx.role(binp, fn_suffix)
     if not b:
         return
+    copies = lambda tt: C.is_transparent(tt) or T.item_preserving(C.callee_name(tt)) or \
+        (C.callee_name(tt) or "").endswith(("::to_vec", "::to_owned", "::clone", "::to_string", "::into", "::collect"))
     for dst, src in pairs:
-        stores = [(bb, st) for bb, si, st in b.stmts() if st["k"] == "assign" and st["lhs"]["p"] and st["lhs"]["p"][-1].get("name") == dst]
-        stores_c = [(bb, t) for bb, t in b.calls() if t["dest"]["p"] and t["dest"]["p"][-1].get("name") == dst]
-        if not stores and not stores_c:
+        vals = field_values(b, CLI_CONFIG, dst)
+        if not vals:
             ctx.violation([fn_suffix, dst, "unset"], "the CLI no longer passes `%s` on to Config.%s" % (src, dst), site=ctx.site(b, 0))
             continue
-        copies = lambda tt: C.is_transparent(tt) or T.item_preserving(C.callee_name(tt)) or \
-            (C.callee_name(tt) or "").endswith(("::to_vec", "::to_owned", "::clone", "::to_string", "::into"))
-        for bb, st in stores:
-            lv = C.trace(b, st["rv"]["op"], through_fields=True, transparent=copies) if st["rv"]["k"] == "use" else []
-            good = bool(lv) and any(l.kind == "field" and has_field([l], src) for l in lv) and \
-                all((l.kind == "field" and has_field([l], src) and not l.neg) or l.kind == "param" for l in lv)
+        for bb, op, st in vals:
+            if op is None and st.get("k") == "call":
+                lv = [l for a in st["args"] for l in C.trace(b, a, through_fields=True, transparent=copies)]
+                fine_call = C.callee_name(st).endswith(("::clone", "::to_vec", "::to_owned", "::collect"))
+            else:
+                lv = C.trace(b, op, through_fields=True, transparent=copies) if op is not None else []
+                fine_call = True
+            is_flag = lambda l: l.kind == "field" and has_field([l], src) and not any(o in CLI_CONFIG for (o, v, n) in C.pl_fields(l.data))
+            from_default = bool(lv) and all(l.kind == "field" and any(o in CLI_CONFIG for (o, v, n) in C.pl_fields(l.data)) for l in lv)
+            if from_default:
+                continue        # `..Config::default()`: not the value the command line decides
+            # (through_fields also reports the containers the flag sits in: `args.flags`, and where `args` comes from: Parser::parse)
+            container = lambda l: (l.kind == "field" and not l.neg and not any(o in CLI_CONFIG for (o, v, n) in C.pl_fields(l.data))) or \
+                l.kind == "param" or (l.kind == "call" and (C.callee_name(l.data) or "").startswith("clap::Parser::"))
+            good = fine_call and bool(lv) and any(is_flag(l) and not l.neg for l in lv) and all(container(l) for l in lv)
             if good:
                 ctx.ok("Config.%s = flag `%s`" % (dst, src), site=ctx.site(b, bb))
             else:
-                ctx.violation([fn_suffix, dst], "Config.%s is not assigned the `%s` flag as given (%s)" % (dst, src, [repr(l) for l in lv][:3] or C.rv_str(st["rv"], b)),
+                ctx.violation([fn_suffix, dst], "Config.%s is not given the `%s` flag as parsed (%s)" % (dst, src, [repr(l) for l in lv][:3]),
                               site=ctx.site(b, bb))
-        for bb, t in stores_c:
-            lv = [l for a in t["args"] for l in C.trace(b, a, through_fields=True, transparent=copies)]
-            if C.callee_name(t).endswith(("::clone", "::to_vec", "::to_owned", "::collect")) and lv and all((l.kind == "field" and has_field([l], src)) or l.kind == "param" for l in lv):
-                ctx.ok("Config.%s = flag `%s` (clone)" % (dst, src), site=ctx.site(b, bb))
-            else:
-                ctx.violation([fn_suffix, dst], "Config.%s is computed by %s, not copied from the `%s` flag" % (dst, C.callee_name(t), src), site=ctx.site(b, bb))
 
 
 @rule("C11", "R11.11", floor=2)
 def r11_11(ctx):
     """CLI plumbing: Config.recursive is the `--recursive` flag as given and Config.inputs the positional arguments as given (an inverted
     or defaulted flag changes which files are picked up)"""
-    _cli_field_flow(ctx, "txtpp::Flags::apply_to", [("recursive", "recursive"), ("inputs", "inputs")])
+    _cli_field_flow(ctx, "txtpp::main", [("recursive", "recursive"), ("inputs", "inputs")])
 
 
 @rule("C16", "R16.9", floor=2)
